@@ -33,7 +33,7 @@ import (
 // beyond the signing certificate's expiry". The template is what x509.CreateCertificate signs: every
 // identity-bearing field of it is accounted for here.
 //
-//verif:pure BuildSubjectAltNameExtension
+//verif:pure BuildSubjectAltNameExtension DualUseCommonName
 //verif:opaque genSerialNum
 //verif:contract genCertTemplateFromCSR
 //verif:prop C09
@@ -46,10 +46,20 @@ func ctGenCertTemplateFromCSR(csr *x509.CertificateRequest, subjectIDs []string,
 	verif.Ensures("identities-only-in-the-built-san-extension", t == nil ||
 		(len(t.ExtraExtensions) == 1 && len(t.DNSNames) == 0 && len(t.EmailAddresses) == 0 && len(t.IPAddresses) == 0 &&
 			len(t.URIs) == 0 && len(t.Extensions) == 0))
+	// the subject carries at most a common name, and that is derived from the identities (dual-use mode),
+	// never copied from the CSR
+	verif.Ensures("common-name-from-the-identities-or-none", t == nil || t.Subject.CommonName == "" ||
+		t.Subject.CommonName == verif.Old(func() string { return commonNameOf(subjectIDs) }))
 	verif.Ensures("not-valid-beyond-the-signing-certificate", t == nil || signingCert == nil || !t.NotAfter.After(signingCert.NotAfter))
 	verif.Ensures("valid-for-the-ttl-unless-clamped", t == nil ||
 		t.NotAfter.Sub(t.NotBefore) == ttl+ClockSkewGracePeriod || (signingCert != nil && t.NotAfter.Equal(signingCert.NotAfter)))
 	verif.Ensures("never-longer-than-the-ttl", t == nil || t.NotAfter.Sub(t.NotBefore) <= ttl+ClockSkewGracePeriod)
+}
+
+// commonNameOf: the dual-use common name of a list of identities ("" when there is none).
+func commonNameOf(subjectIDs []string) string {
+	cn, _ := DualUseCommonName(strings.Join(subjectIDs, ","))
+	return cn
 }
 
 // The one extension is built from the comma-joined subject IDs and from nothing else (in particular
